@@ -234,6 +234,10 @@ func (wr *Writer) tightStruct(rv reflect.Value, si *sinfo) {
 }
 
 func (wr *Writer) tightSlice(rv reflect.Value, si *sinfo) {
+	if rv.Kind() == reflect.Slice && rv.Type().Elem().Kind() == reflect.Uint8 {
+		wr.appendJSON(rv.Bytes(), 0) // []byte follows the BytesAs option
+		return
+	}
 	end := rv.Len()
 	comma := false
 	wr.buf = append(wr.buf, '[')
